@@ -30,7 +30,8 @@ Scenario ==
   [id |-> ToString(<<"gs", sizes, x0, y0, x1, y1, dx, dy>>), fam |-> "surface",
    sw |-> sizes[1], sh |-> sizes[2], dw |-> sizes[3], dh |-> sizes[4],
    rect |-> <<x0, y0, x1, y1>>, dst |-> <<dx, dy>>,
-   kind |-> KindMenu[(H % 5) + 1], mode |-> ModeMenu[(H % 11) + 1],
-   alpha |-> <<AlphaMenu[(H % 5) + 1], 255>>, noise |-> (H % 3 = 0)]
+   \* independent digits of H (kind and alpha must not share one: "alpha" would only ever see one value)
+   kind |-> KindMenu[(H % 5) + 1], mode |-> ModeMenu[((H \div 5) % 11) + 1],
+   alpha |-> <<AlphaMenu[((H \div 55) % 5) + 1], 255>>, noise |-> ((H \div 275) % 3 = 0)]
 Emit == PrintT(ToJson(Scenario))
 =============================================================================
